@@ -32,7 +32,7 @@ type goldenRec struct {
 	Freelist string `json:"freelist"`  // flpage + free lines
 }
 
-const goldenDir = "/verif/golden"
+var goldenDir = filepath.Join(baseDir(), "golden")
 
 func formatEngine() {
 	start := time.Now()
